@@ -18,7 +18,7 @@ MD = "mitmproxy.coretypes.multidict:_MultiDict"
 def lower_(vc, b):
     """canonical (case-folded) name: bytes.lower(), in proof mode the same uninterpreted idempotent function the
     engine uses for bytes.lower()"""
-    if vc.mode == "native":
+    if vc.mode == "native" or isinstance(b, bytes):
         return b.lower()
     import z3
     from pyvc import lib
@@ -31,7 +31,7 @@ def same_name(vc, a, b):
 
 def native_(vc, b):
     """text presentation of raw header bytes (documented: UTF-8 with surrogateescape); uninterpreted codec in proof mode"""
-    if vc.mode == "native":
+    if vc.mode == "native" or isinstance(b, bytes):
         return b.decode("utf-8", "surrogateescape")
     import z3
     from pyvc import lib
@@ -48,7 +48,7 @@ def count(conds):
 def pick(items, idx):
     """items[idx] for a concrete list and a possibly symbolic in-range idx"""
     if not is_sym(idx):
-        return items[idx]
+        return items[min(idx, len(items) - 1)]  # out of range only where the caller ignores the value
     r = items[-1]
     for j in range(len(items) - 2, -1, -1):
         r = If(idx == j, items[j], r)
@@ -84,9 +84,27 @@ def mk_fields(vc, n, prefix=""):
     return names, vals, tuple((names[i], vals[i]) for i in range(n))
 
 
-def mk_headers(vc, n, prefix=""):
-    names, vals, fields = mk_fields(vc, n, prefix)
-    return vc.new(H, fields=fields), names, vals
+ALPHA = [b"a", b"A", b"b"]  # the statement's "small name alphabet differing in case"
+
+
+def mk_headers(vc, n, prefix="", alphabet=False):
+    """Pre-state collection with n fields. Names are arbitrary symbolic bytes; with alphabet=True the scenario is
+    additionally explored with every assignment of concrete names from ALPHA (n <= 3): there bytes.lower() is computed,
+    not abstracted, so a broken case-folding yields a counter-model that replays on the real code."""
+    mode = vc.case("names", ["symbolic", "alphabet"]) if alphabet else "symbolic"
+    vc._c35_mode = mode
+    if mode == "symbolic":
+        names, vals, fields = mk_fields(vc, n, prefix)
+        return vc.new(H, fields=fields), names, vals
+    if n > 3:
+        vc.assume(False)
+    names = [vc.case(f"name{i}", ALPHA) for i in range(n)]
+    vals = [vc.sym_bytes(f"{prefix}v{i}") for i in range(n)]
+    return vc.new(H, fields=tuple((names[i], vals[i]) for i in range(n))), names, vals
+
+
+def mk_key(vc):
+    return vc.case("key", ALPHA) if getattr(vc, "_c35_mode", "symbolic") == "alphabet" else vc.sym_bytes("key")
 
 
 def state_keys(vc, o):
@@ -104,7 +122,7 @@ def ensure_fields_unchanged(vc, tag, h, names, vals):
     vc.ensure(tag + ".frame", state_keys(vc, h) == ["fields"])
 
 
-K = 4  # bound on the number of pre-existing fields in the per-operation contracts (names/values fully symbolic)
+K = 5  # bound on the number of pre-existing fields in the per-operation contracts (names/values fully symbolic)
 LENS = list(range(K + 1))
 
 
@@ -114,8 +132,8 @@ LENS = list(range(K + 1))
 @scenario("get_all", functions=[H + ".get_all", MD + ".get_all", H + "._kconv"])
 def s_get_all(vc):
     n = vc.case("n", LENS)
-    h, names, vals = mk_headers(vc, n)
-    key = vc.sym_bytes("key")
+    h, names, vals = mk_headers(vc, n, alphabet=True)
+    key = mk_key(vc)
     out = vc.call(H + ".get_all", h, key)
     vc.ensure("no_exception", out.ok)
     if not out.ok:
@@ -145,8 +163,8 @@ def folded(parts):
 @scenario("getitem", functions=[MD + ".__getitem__", H + ".get_all", H + "._reduce_values"])
 def s_getitem(vc):
     n = vc.case("n", LENS)
-    h, names, vals = mk_headers(vc, n)
-    key = vc.sym_bytes("key")
+    h, names, vals = mk_headers(vc, n, alphabet=True)
+    key = mk_key(vc)
     out = vc.call(MD + ".__getitem__", h, key)
     match = [same_name(vc, names[i], key) for i in range(n)]
     present = Or(*match) if n else False
@@ -161,8 +179,8 @@ def s_getitem(vc):
 @scenario("contains_get", functions=["_collections_abc:Mapping.__contains__", "_collections_abc:Mapping.get", MD + ".__getitem__"])
 def s_contains(vc):
     n = vc.case("n", LENS[:4])
-    h, names, vals = mk_headers(vc, n)
-    key = vc.sym_bytes("key")
+    h, names, vals = mk_headers(vc, n, alphabet=True)
+    key = mk_key(vc)
     match = [same_name(vc, names[i], key) for i in range(n)]
     present = Or(*match) if n else False
     out = vc.call("_collections_abc:Mapping.__contains__", h, key)
@@ -202,8 +220,8 @@ def _mk_set_all(m):
     @scenario(f"set_all[values={m}]", functions=[H + ".set_all", MD + ".set_all"])
     def s_set_all(vc):
         n = vc.case("n", LENS)
-        h, names, vals = mk_headers(vc, n)
-        key = vc.sym_bytes("key")
+        h, names, vals = mk_headers(vc, n, alphabet=True)
+        key = mk_key(vc)
         new = [vc.sym_bytes(f"new{j}") for j in range(m)]
         arg = vc.list(new)
         out = vc.call(H + ".set_all", h, key, arg)
@@ -224,8 +242,8 @@ for _m in range(4):
 @scenario("setitem", functions=[MD + ".__setitem__", H + ".set_all", MD + ".set_all"])
 def s_setitem(vc):
     n = vc.case("n", LENS)
-    h, names, vals = mk_headers(vc, n)
-    key = vc.sym_bytes("key")
+    h, names, vals = mk_headers(vc, n, alphabet=True)
+    key = mk_key(vc)
     value = vc.sym_bytes("value")
     out = vc.call(MD + ".__setitem__", h, key, value)
     vc.ensure("no_exception", out.ok)
@@ -238,8 +256,8 @@ def s_setitem(vc):
 @scenario("delitem", functions=[H + ".__delitem__", MD + ".__delitem__"])
 def s_delitem(vc):
     n = vc.case("n", LENS)
-    h, names, vals = mk_headers(vc, n)
-    key = vc.sym_bytes("key")
+    h, names, vals = mk_headers(vc, n, alphabet=True)
+    key = mk_key(vc)
     out = vc.call(H + ".__delitem__", h, key)
     match = [same_name(vc, names[i], key) for i in range(n)]
     present = Or(*match) if n else False
@@ -309,7 +327,7 @@ def first_occurrence(vc, names):
 @scenario("iter", functions=[H + ".__iter__", MD + ".__iter__"])
 def s_iter(vc):
     n = vc.case("n", LENS)
-    h, names, vals = mk_headers(vc, n)
+    h, names, vals = mk_headers(vc, n, alphabet=True)
     out = vc.call(H + ".__iter__", h)
     vc.ensure("no_exception", out.ok)
     if not out.ok:
@@ -322,7 +340,7 @@ def s_iter(vc):
 @scenario("len", functions=[MD + ".__len__"])
 def s_len(vc):
     n = vc.case("n", LENS)
-    h, names, vals = mk_headers(vc, n)
+    h, names, vals = mk_headers(vc, n, alphabet=True)
     out = vc.call(MD + ".__len__", h)
     vc.ensure("no_exception", out.ok)
     if not out.ok:
@@ -429,6 +447,20 @@ def s_bytes(vc):
     ensure_fields_unchanged(vc, "pure", h, names, vals)
 
 
+def cut(vc, name, cond):
+    """lemma: proved as an obligation under the current path condition, and only then available as a fact"""
+    vc.ensure(name, cond)
+    vc.assume(cond)
+
+
+def index_of(vc, hay, needle):
+    if vc.mode == "native":
+        return hay.find(needle)
+    import z3
+    from pyvc.core import _z
+    return SInt(z3.IndexOf(_z(hay), _z(needle), 0))
+
+
 def valid_field(vc, name, value):
     """what the round trip needs of a field (implied by RFC 9110 §5.1/§5.5 validity: name is a non-empty token, value has no
     leading/trailing whitespace): non-empty name without ':' that does not start with SP/HTAB; value neither starts nor ends
@@ -441,27 +473,306 @@ def valid_field(vc, name, value):
     return And(len_(name) > 0, Not(contains(name, b":")), code_at(name, 0) != 0x20, code_at(name, 0) != 0x09, SBool(is_ws_free_ends(value.t)))
 
 
-@scenario("read_headers.roundtrip", functions=["mitmproxy.net.http.http1.read:_read_headers", H + ".__init__", H + ".__bytes__", MD + ".__eq__"], exact_strip=True)
-def s_roundtrip(vc):
-    n = vc.case("n", LENS[:4])
-    h, names, vals = mk_headers(vc, n)
-    for i in range(n):
-        vc.assume(valid_field(vc, names[i], vals[i]))
-    ser = vc.call(H + ".__bytes__", h)
-    vc.ensure("serialise.ok", ser.ok)
-    if not ser.ok:
-        return
-    # the header block is exactly the CRLF-terminated lines "name: value" (obligation), so a reader that splits at CRLF
-    # hands these lines to _read_headers (the line splitter is h11's ReceiveBuffer: third-party, covered in T2)
-    lines = [names[i] + b": " + vals[i] for i in range(n)]
-    vc.ensure("serialise.lines", ser.result == concat_all([l + b"\r\n" for l in lines]))
-    out = vc.call("mitmproxy.net.http.http1.read:_read_headers", vc.list(lines))
-    vc.ensure("parse.no_exception", out.ok)
-    if not out.ok:
-        return
-    got = fields_of(vc, out.result)
-    vc.ensure("parse.count", len(got) == n)
-    for i in range(min(n, len(got))):
-        vc.ensure(f"parse.name[{i}]", items_of(got[i])[0] == names[i])
-        vc.ensure(f"parse.value[{i}]", items_of(got[i])[1] == vals[i])
-    vc.ensure("parse.equals_original", vc.eq(out.result, h))
+def _mk_roundtrip(n):
+    @scenario(f"read_headers.roundtrip[fields={n}]", functions=["mitmproxy.net.http.http1.read:_read_headers", H + ".__init__", H + ".__bytes__", MD + ".__eq__"],
+              strip_lemmas=True, z3_timeout_ms=700)
+    def s_roundtrip(vc):
+        h, names, vals = mk_headers(vc, n)
+        for i in range(n):
+            vc.assume(valid_field(vc, names[i], vals[i]))
+        ser = vc.call(H + ".__bytes__", h)
+        vc.ensure("serialise.ok", ser.ok)
+        if not ser.ok:
+            return
+        # the header block is exactly the CRLF-terminated lines "name: value" (obligation), so a reader that splits at CRLF
+        # hands these lines to _read_headers (the line splitter is h11's ReceiveBuffer: third-party, covered in T2)
+        lines = [names[i] + b": " + vals[i] for i in range(n)]
+        vc.ensure("serialise.lines", ser.result == concat_all([l + b"\r\n" for l in lines]))
+        for i in range(n):
+            # lemma (proved, then used): the first ':' of the line is the one written by the serialiser
+            cut(vc, f"lemma.first_colon[{i}]", index_of(vc, lines[i], b":") == len_(names[i]))
+        out = vc.call("mitmproxy.net.http.http1.read:_read_headers", vc.list(lines))
+        vc.ensure("parse.no_exception", out.ok)
+        if not out.ok:
+            return
+        got = fields_of(vc, out.result)
+        vc.ensure("parse.count", len(got) == n)
+        for i in range(min(n, len(got))):
+            vc.ensure(f"parse.name[{i}]", items_of(got[i])[0] == names[i])
+            vc.ensure(f"parse.value[{i}]", items_of(got[i])[1] == vals[i])
+        vc.ensure("parse.equals_original", vc.eq(out.result, h))
+
+    return s_roundtrip
+
+
+for _n in range(4):
+    _mk_roundtrip(_n)
+
+
+# =================================================================================================================
+# T2 (bounded): real Headers objects driven through operation histories against an independent reference multimap,
+# and the serialise -> h11 line splitter -> _read_headers chain on enumerated valid field lists
+
+def _fold(b: bytes) -> bytes:
+    """ASCII case folding written out (independent of bytes.lower)"""
+    return bytes(c + 32 if 65 <= c <= 90 else c for c in b)
+
+
+def _txt(b: bytes) -> str:
+    return b.decode("utf-8", "surrogateescape")
+
+
+class RefMultimap:
+    """ordered multimap with case-insensitive names that keeps spelling and order of untouched fields"""
+
+    def __init__(self, fields=()):
+        self.f = [(bytes(n), bytes(v)) for n, v in fields]
+
+    def get_all(self, name):
+        return [_txt(v) for n, v in self.f if _fold(n) == _fold(name)]
+
+    def getitem(self, name):
+        vs = self.get_all(name)
+        if not vs:
+            raise KeyError(name)
+        return ", ".join(vs)
+
+    def set_all(self, name, values):
+        values = list(values)
+        out, used = [], 0
+        for n, v in self.f:
+            if _fold(n) == _fold(name):
+                if used < len(values):
+                    out.append((n, values[used]))
+                    used += 1
+            else:
+                out.append((n, v))
+        out.extend((name, v) for v in values[used:])
+        self.f = out
+
+    def delete(self, name):
+        if not any(_fold(n) == _fold(name) for n, _ in self.f):
+            raise KeyError(name)
+        self.f = [(n, v) for n, v in self.f if _fold(n) != _fold(name)]
+
+    def insert(self, idx, name, value):
+        l = list(self.f)
+        l.insert(idx, (name, value))
+        self.f = l
+
+    def names(self):
+        seen, out = set(), []
+        for n, _ in self.f:
+            if _fold(n) not in seen:
+                seen.add(_fold(n))
+                out.append(_txt(n))
+        return out
+
+    def wire(self):
+        return b"".join(n + b": " + v + b"\r\n" for n, v in self.f)
+
+
+def _observe(b, h, ref, hist):
+    """every observer of the collection against the model; returns False on the first mismatch"""
+    from mitmproxy.http import Headers
+
+    def bad(check, detail):
+        b.fail(check, {"history": hist}, detail)
+        return False
+
+    if h.fields != tuple(ref.f):
+        return bad("history.fields_match_model", f"fields {h.fields!r} != model {ref.f!r}")
+    if sorted(h.__dict__) != ["fields"]:
+        return bad("history.frame", f"attributes {sorted(h.__dict__)}")
+    if list(h) != ref.names() or list(h.keys()) != ref.names():
+        return bad("history.iter", f"{list(h)!r} != {ref.names()!r}")
+    if len(h) != len(ref.names()):
+        return bad("history.len", f"{len(h)} != {len(ref.names())}")
+    if list(h.items(multi=True)) != [(_txt(n), _txt(v)) for n, v in ref.f] or list(h.keys(multi=True)) != [_txt(n) for n, _ in ref.f] or list(h.values(multi=True)) != [_txt(v) for _, v in ref.f]:
+        return bad("history.items_multi", f"{list(h.items(multi=True))!r}")
+    if list(h.items()) != [(k, ref.getitem(k.encode())) for k in ref.names()]:
+        return bad("history.items", f"{list(h.items())!r}")
+    for name in (b"a", "A", b"b", "B", b"c"):
+        nb = name.encode() if isinstance(name, str) else name
+        if h.get_all(name) != ref.get_all(nb):
+            return bad("history.get_all", f"get_all({name!r}) = {h.get_all(name)!r} != {ref.get_all(nb)!r}")
+        present = bool(ref.get_all(nb))
+        if (name in h) != present:
+            return bad("history.contains", f"{name!r} in h = {name in h}")
+        try:
+            got = h[name]
+        except KeyError:
+            got = KeyError
+        try:
+            exp = ref.getitem(nb)
+        except KeyError:
+            exp = KeyError
+        if got != exp or h.get(name, "dflt") != (exp if exp is not KeyError else "dflt"):
+            return bad("history.getitem", f"h[{name!r}] = {got!r} != {exp!r}")
+    if bytes(h) != ref.wire():
+        return bad("history.bytes", f"{bytes(h)!r} != {ref.wire()!r}")
+    c = h.copy()
+    if not (c == h and h == c and c is not h and type(c) is Headers and c.fields == h.fields) or (h != Headers(ref.f)) or h == ref.f or (ref.f and h == Headers(ref.f[1:])):
+        return bad("history.eq_copy", "copy/equality")
+    st = h.get_state()
+    if Headers.from_state([list(x) for x in st]) != h:
+        return bad("history.state_roundtrip", repr(st))
+    return True
+
+
+def _mutators(depth, tier):
+    v, w = b"x%d" % depth, b"y%d" % depth
+    ops = []
+    for name in (b"a", "A", b"b"):
+        ops.append(("setitem", name, v))
+        ops.append(("set_all", name, ()))
+        ops.append(("set_all", name, (v,)))
+        ops.append(("set_all", name, (v, w)))
+        if tier == "thorough" and depth == 0:
+            ops.append(("set_all", name, (v, w, b"z")))
+        ops.append(("add", name, v))
+        for idx in ((0, -1, 99) if (tier == "quick" or depth > 1) else (0, 1, -1, -99, 99)):
+            ops.append(("insert", idx, name, v))
+        ops.append(("del", name))
+    return ops
+
+
+def _apply(h, ref, op):
+    """apply op to the real object and to the model; returns (real outcome, model outcome)"""
+    nb = lambda x: x.encode() if isinstance(x, str) else x
+    kind = op[0]
+    try:
+        if kind == "setitem":
+            h[op[1]] = op[2]
+        elif kind == "set_all":
+            arg = list(op[2])
+            h.set_all(op[1], arg)
+            if arg != list(op[2]):
+                return "caller's list modified", None
+        elif kind == "add":
+            h.add(op[1], op[2])
+        elif kind == "insert":
+            h.insert(op[1], op[2], op[3])
+        elif kind == "del":
+            del h[op[1]]
+        r = None
+    except Exception as e:
+        r = type(e).__name__
+    try:
+        if kind == "setitem":
+            ref.set_all(nb(op[1]), [op[2]])
+        elif kind == "set_all":
+            ref.set_all(nb(op[1]), op[2])
+        elif kind == "add":
+            ref.insert(len(ref.f), nb(op[1]), op[2])
+        elif kind == "insert":
+            ref.insert(op[1], nb(op[2]), op[3])
+        elif kind == "del":
+            ref.delete(nb(op[1]))
+        m = None
+    except KeyError:
+        m = "KeyError"
+    return r, m
+
+
+def _histories(b, tier, seed):
+    from mitmproxy.http import Headers
+
+    maxdepth = 3 if tier == "quick" else 4
+    inits = [(), ((b"a", b"1"), (b"A", b"2"), (b"b", b"3")), ((b"B", b"1"), (b"a", b"2"), (b"b", b"3"), (b"A", b"4"), (b"a", b"5"))]
+    failed_checks = set()
+
+    def rec(fields, hist, depth):
+        for op in _mutators(depth, tier):
+            h, ref = Headers(fields), RefMultimap(fields)
+            r, m = _apply(h, ref, op)
+            hist2 = hist + [repr(op)]
+            b.case((fields, op), nontrivial=tuple(ref.f) != tuple(fields))
+            if r != m:
+                if "history.outcome" not in failed_checks or len(b.failures) < 20:
+                    b.fail("history.outcome", {"history": hist2, "initial": repr(fields)}, f"real {r!r} vs model {m!r}")
+                    failed_checks.add("history.outcome")
+                continue
+            if not _observe(b, h, ref, {"initial": repr(fields), "ops": hist2}):
+                if len(b.failures) > 40:
+                    return
+                continue
+            if depth + 1 < maxdepth:
+                rec(h.fields, hist2, depth + 1)
+
+    for init in inits:
+        _observe(b, Headers(init), RefMultimap(init), {"initial": repr(init), "ops": []})
+        rec(tuple(init), [], 0)
+
+
+def _roundtrips(b, tier, seed):
+    import itertools
+    from h11._receivebuffer import ReceiveBuffer
+    from mitmproxy.http import Headers
+    from mitmproxy.net.http.http1 import read
+
+    names = [b"a", b"A", b"Host", b"x-y_z.1", b"!#$%&'*+-.^_`|~", b"Set-Cookie"]
+    values = [b"", b"v", b"a b", b"a\tb", b"a:b", b":", b"a, b", b"\xc3\xa9", b"\xff\x80", b"x" * 70, b"a  b", b"\"q\"", b"a;b=c"]
+    if tier == "quick":
+        names, values = names[:5], values[:10]
+    fields = list(itertools.product(names, values))
+    lists = [()] + [(f,) for f in fields] + list(itertools.product(fields, repeat=2))
+    if tier == "thorough":
+        import random
+        rnd = random.Random(seed)
+        lists += [tuple(rnd.choice(fields) for _ in range(3)) for _ in range(20000)]
+    for fl in lists:
+        b.case(("roundtrip", fl), nontrivial=len(fl) > 0)
+        h = Headers(fl)
+        wire_ = bytes(h)
+        buf = ReceiveBuffer()
+        buf += b"GET / HTTP/1.1\r\n" + wire_ + b"\r\n" + b"BODY"
+        lines = buf.maybe_extract_lines()
+        inp = {"fields": repr(fl), "wire": wire_.hex()}
+        if lines is None:
+            b.fail("roundtrip.head_is_complete", inp, "line splitter did not find the end of the head")
+            continue
+        try:
+            parsed = read._read_headers([bytes(x) for x in lines[1:]])
+        except Exception as e:
+            b.fail("roundtrip.parse_ok", inp, f"{type(e).__name__}: {e}")
+            continue
+        if parsed.fields != tuple(fl) or parsed != h or bytes(buf) != b"BODY":
+            b.fail("roundtrip.same_fields", inp, f"parsed {parsed.fields!r}")
+
+
+def bounded(tier, seed):
+    b = Bounded()
+    b.rule = ("(1) every history of <= 3 (quick) / 4 (thorough) mutating operations (setitem, set_all with 0..2[3] values, add, insert at several "
+              "indices incl. negative/out-of-range, del) over the names {a, A, b} (bytes and str forms), from an empty and from pre-populated "
+              "collections with repeated names differing in case; after every operation all observers (fields, iteration, len, items/keys/values, "
+              "get_all/getitem/get/contains for 5 names, bytes, copy/equality/state) are compared with an independent reference multimap. "
+              "(2) serialise -> h11 ReceiveBuffer.maybe_extract_lines -> _read_headers on enumerated lists (<= 2, thorough: sampled 3) of valid "
+              "fields. distinct = (pre-state, operation) resp. field list; non-trivial = the operation changed the collection / list non-empty")
+    b.bound = "histories <= 3/4 operations over 3 names; field lists <= 2 (3 sampled) over 5-6 names x 10-13 values"
+    b.exhaustive = False
+    _histories(b, tier, seed)
+    _roundtrips(b, tier, seed)
+    return b
+
+
+ASSUMPTIONS = [
+    "bounded(5): every T1 contract on a collection operation is proved for pre-states with 0..5 fields (set_all additionally for 0..3 new values; "
+    "eq for 0..3 x 0..3 fields; contains/get, items/keys/values, copy/state for 0..3 fields; __bytes__ for 0..7 fields); within the bound the names, "
+    "values, keys and the insert index are fully symbolic (arbitrary bytes of any length, any integer). Longer collections are only covered by T2",
+    "bounded(3): the HTTP/1 round trip _read_headers(lines(bytes(H))) = H is proved for 0..3 valid fields (names/values symbolic, any length)",
+    "case-insensitivity of names is defined as equality under bytes.lower(); in proof mode bytes.lower is an uninterpreted idempotent length-preserving function "
+    "(its table — ASCII A-Z only — is library behaviour; T2 uses an independent ASCII fold)",
+    "bytes.decode/str.encode('utf-8','surrogateescape') (the str presentation of names/values) are uninterpreted functions; results are stated relative to them",
+    "bytes.strip() is an uninterpreted function with instantiated true lemmas (result has no ASCII-whitespace ends; identity on strings without whitespace ends; "
+    "strip(ws+s) = strip(s)); bytes.split(b':', 1) is modelled with str.indexof",
+    "the line splitter between the serialised block and _read_headers is h11's ReceiveBuffer (third party): T1 proves that the block is exactly the lines "
+    "'name: value' each terminated by CRLF and that _read_headers maps those lines back; that the splitter returns those lines is checked in T2 only",
+    "equality of collections is read as equality of the field sequences including spelling (the model preserves spelling), as implemented by _MultiDict.__eq__",
+    "collections.abc Mapping/MutableMapping mixins (__contains__, get, update, keys/items views) are executed from their CPython source",
+]
+EXPLANATION = ("T1 proves, for every operation of the Headers collection, a contract that fixes the result and the complete post-state `fields` sequence as a function of "
+               "the pre-state sequence (all names/values/keys symbolic), but only for collections of at most 5 pre-existing fields (case split on the length; the engine "
+               "has no symbolic-length sequences of pairs, so no loop invariants were written). Arbitrary histories follow by composition of these contracts because `fields` "
+               "is the only state (frame obligations) — again up to that size bound. Beyond the bound, and for the composition with h11's line splitter, the evidence is "
+               "the bounded T2 run (operation histories against a reference multimap; serialise/split/parse round trips).")
